@@ -1,5 +1,6 @@
 import Sqfs.Proofs.ObjConstruct
 import Sqfs.Proofs.ObjView
+import Sqfs.Proofs.ObjRestore
 import Sqfs.Proofs.ObjKinds
 /-!
 C19 — copies of library objects are well-formed, equivalent, independent and safely destroyable.
@@ -128,6 +129,40 @@ theorem release_safe_either_order (h : Heap) (U : Nat → Nat) (o c : Nat)
   have h1 := release_safe h U [o, c] hb (fun x => (cnt x).1)
   have h2 := release_safe h U [c, o] hb (fun x => (cnt x).2)
   exact ⟨h1.1, h2.1, h1.2, h2.2⟩
+
+/-- `copy_then_release_restores`: copying an object and releasing the copy gives back **exactly** the heap there
+was: every object with the reference count it had (in particular the shared file and compressor), every buffer
+with its contents, nothing added — the copy holds nothing of the original's and leaks nothing of its own. -/
+theorem copy_then_release_restores (h : Heap) (U : Nat → Nat) (o : Nat)
+    (hb : Balanced h U) (hbud : h.budget = none) (hl : (h.objs o).isSome) :
+    ∃ h' c, sqfsCopyTop desc h o = (h', some c) ∧ (sqfsDrop h' c).crash = none ∧
+      (sqfsDrop h' c).objs = h.objs ∧ (sqfsDrop h' c).bufs = h.bufs := by
+  rcases hr : sqfsCopyTop desc h o with ⟨h', r⟩
+  obtain ⟨hsome, hres⟩ := sqfsCopy_bal desc desc_wellformed h.nobj h U [] [] o hb hl (hb.bound o hl) h' r hr
+  obtain ⟨c, rfl⟩ := Option.isSome_iff_exists.mp (hsome hbud)
+  obtain ⟨hb', hfresh, hsl⟩ := hres
+  have hnone : h.objs c = none := by
+    cases hv : h.objs c with
+    | none => rfl
+    | some _ => have := hb.bound c (by simp [hv]); omega
+  have hU : U c = 0 := (hb.dead c (Or.inl hnone)).1
+  have hbu := hb'.pendingToUser
+  have hrel := release_safe h' _ [c] hbu (by
+    intro x
+    by_cases hx : x = c
+    · subst hx; simp
+    · have : ¬ c = x := fun e => hx e.symm
+      simp [List.count_cons, this])
+  have hUeq : (fun x => (if x = c then U c + 1 else U x) - [c].count x) = U := by
+    funext x
+    by_cases hx : x = c
+    · subst hx; simp [hU]
+    · have : ¬ c = x := fun e => hx e.symm
+      simp [hx, List.count_cons, this]
+  rw [hUeq] at hrel
+  have hk : Shrinks h' (sqfsDrop h' c) := Shrinks.drop _ _ _
+  obtain ⟨e1, e2⟩ := restore_of_frames hb hrel.2 hsl hk
+  exact ⟨h', c, rfl, hrel.1, e1, e2⟩
 
 /-- `no_leak`: once every reference the user held has been released, no object and no buffer is left -/
 theorem no_leak (h : Heap) (U : Nat → Nat) (ds : List Nat)
